@@ -310,3 +310,20 @@ def last_store_value(nodes, target_text, before=None):
                 if norm(t) == target_text:
                     val = n.value
     return val
+
+
+def symbolic_value_on_path(path, stmt, expr=None, params=()):
+    """Expression `expr` (default: the value of Assign `stmt`) with every local
+    replaced by the expression it holds when `stmt` is reached along `path`
+    (straight-line substitution along the path; augmented assignments folded)."""
+    env = {}
+    for n in path_nodes(path):
+        if n is stmt:
+            break
+        if isinstance(n, ast.Assign) and len(n.targets) == 1 and isinstance(n.targets[0], ast.Name):
+            env[n.targets[0].id] = _Subst(env).visit(clone(n.value))
+        elif isinstance(n, ast.AugAssign) and isinstance(n.target, ast.Name):
+            cur = env.get(n.target.id, ast.Name(id=n.target.id, ctx=ast.Load()))
+            env[n.target.id] = ast.BinOp(left=clone(cur), op=n.op, right=_Subst(env).visit(clone(n.value)))
+    e = expr if expr is not None else stmt.value
+    return _Subst(env).visit(clone(e))
